@@ -3,7 +3,7 @@
 //! (derive / commit determinism, bulletproof create / verify / rewind), and the transaction /
 //! coinbase builder.
 //!
-//! modes (argv[1]): codec | arith | crypto | build | viewkey | history | seeds
+//! modes (argv[1]): codec | arith | crypto | build | viewkey | history | seeds | hasher
 use std::convert::TryFrom;
 use std::panic::AssertUnwindSafe;
 
@@ -2156,6 +2156,152 @@ fn seeds(out: &mut Out, rng: &mut Rng, thorough: bool) {
 	out.raw(&format!("#STAT seeds distribution={:?}", stat));
 }
 
+// ---------------------------------------------------------------------------------------------
+// one hasher object reused across consecutive derivations
+// ---------------------------------------------------------------------------------------------
+
+fn hasher(out: &mut Out, rng: &mut Rng, thorough: bool) {
+	use grin_keychain::extkey_bip32::{BIP32GrinHasher, ExtendedPrivKey, ExtendedPubKey};
+	let secp = Secp256k1::with_caps(secp::ContextFlag::Commit);
+	let mut stat: std::collections::BTreeMap<String, u64> = Default::default();
+	macro_rules! bump {
+		($k:expr) => {
+			*stat.entry($k).or_insert(0) += 1
+		};
+	}
+	let n_seeds = if thorough { 6 } else { 2 };
+	let (mut n_cmp, mut n_same, mut proofs) = (0u64, 0u64, 0u64);
+	for si in 0..n_seeds {
+		let seed = rng.bytes(if si % 2 == 0 { 32 } else { 64 });
+		let is_test = si % 2 == 0;
+		let keychain = ExtKeychain::from_seed(&seed, is_test).unwrap();
+		let fresh = || BIP32GrinHasher::new(is_test);
+		let mut cmp = |out: &mut Out, what: &str, detail: String, same: bool| {
+			n_cmp += 1;
+			if same {
+				n_same += 1;
+			}
+			out.line(&format!("keys hasher {} seed{} {}", what, si, detail), if same { "same" } else { "differs" });
+			if !same {
+				out.raw(&format!(
+					"#ORACLE-FAIL C20 a derivation depends on what the hasher object was used for before: {} {} (seed={} is_test={})",
+					what, detail, hex(&seed), is_test
+				));
+			}
+		};
+		// (a) new_master twice on one hasher; on the keychain's own hasher after it derived something
+		let mut h = fresh();
+		let m1 = ExtendedPrivKey::new_master(&secp, &mut h, &seed).unwrap();
+		let m2 = ExtendedPrivKey::new_master(&secp, &mut h, &seed).unwrap();
+		cmp(out, "master-twice", "first".to_string(), m1 == keychain.master);
+		cmp(out, "master-twice", "second".to_string(), m2 == keychain.master);
+		let _ = keychain.derive_key(5, &ExtKeychain::derive_key_id(3, 1, 2, 3, 0), SwitchCommitmentType::Regular).unwrap();
+		let mut hk = keychain.hasher();
+		let _ = keychain.master.ckd_priv(&secp, &mut hk, ChildNumber::from(77)).unwrap();
+		let m3 = ExtendedPrivKey::new_master(&secp, &mut hk, &seed).unwrap();
+		cmp(out, "master-on-used-keychain-hasher", "-".to_string(), m3 == keychain.master);
+		// another seed in between must not leak into the next master
+		let other_seed = rng.bytes(32);
+		let _ = ExtendedPrivKey::new_master(&secp, &mut hk, &other_seed).unwrap();
+		let m4 = ExtendedPrivKey::new_master(&secp, &mut hk, &seed).unwrap();
+		cmp(out, "master-after-other-seed", "-".to_string(), m4 == keychain.master);
+		// (b) siblings from one parent with ONE hasher: m/a, m/b, m/a again, hardened ones, then deeper
+		let a = 10u32 + rng.below(5) as u32;
+		let words: Vec<u32> = vec![a, a + 1, a, 0x8000_0000 | a, a + 1, 0x8000_0000 | a, 0, 0x7fff_ffff, 0xffff_ffff, a];
+		let mut h = fresh();
+		// the hasher is first used for the master key
+		let parent = ExtendedPrivKey::new_master(&secp, &mut h, &seed).unwrap();
+		let mut first_of: std::collections::BTreeMap<u32, Vec<u8>> = Default::default();
+		for (k, w) in words.iter().enumerate() {
+			let cn = ChildNumber::from(*w);
+			let reused = parent.ckd_priv(&secp, &mut h, cn).unwrap();
+			let mut fh = fresh();
+			let with_fresh = parent.ckd_priv(&secp, &mut fh, cn).unwrap();
+			cmp(out, "ckd_priv-sibling-vs-fresh-hasher", format!("#{} m/{}", k, w), reused == with_fresh);
+			let via_keychain = keychain.derive_key(7, &ExtKeychain::derive_key_id(1, *w, 0, 0, 0), SwitchCommitmentType::None).unwrap();
+			cmp(out, "ckd_priv-sibling-vs-ExtKeychain", format!("#{} m/{}", k, w), reused.secret_key == via_keychain);
+			if let Some(prev) = first_of.get(w) {
+				cmp(out, "ckd_priv-same-index-again", format!("#{} m/{}", k, w), *prev == reused.secret_key.0.to_vec());
+			}
+			first_of.insert(*w, reused.secret_key.0.to_vec());
+			bump!(format!("sibling {}", if w & 0x8000_0000 != 0 { "hardened" } else { "normal" }));
+			// one level deeper with the same hasher object
+			let cn2 = ChildNumber::from(rng.below(50) as u32);
+			let deep = reused.ckd_priv(&secp, &mut h, cn2).unwrap();
+			let via = keychain.derive_key(7, &ExtKeychain::derive_key_id(2, *w, u32::from(cn2), 0, 0), SwitchCommitmentType::None).unwrap();
+			cmp(out, "ckd_priv-grandchild-vs-ExtKeychain", format!("#{} m/{}/{}", k, w, u32::from(cn2)), deep.secret_key == via);
+			// public derivation with the same hasher object (normal words only)
+			if w & 0x8000_0000 == 0 {
+				let ppub = ExtendedPubKey::from_private(&secp, &parent, &mut h);
+				let cpub = ppub.ckd_pub(&secp, &mut h, cn).unwrap();
+				let want = ExtendedPubKey::from_private(&secp, &with_fresh, &mut fresh());
+				cmp(out, "ckd_pub-vs-pub-of-private-child", format!("#{} m/{}", k, w), cpub.public_key == want.public_key && cpub.chain_code == want.chain_code);
+			}
+		}
+		// derive_priv of a whole path with the used hasher
+		for _ in 0..(if thorough { 20 } else { 6 }) {
+			let d = rng.range(1, 4) as usize;
+			let ws: Vec<u32> = (0..4).map(|i| if i < d { rand_index(rng) } else { 0 }).collect();
+			let cns: Vec<ChildNumber> = ws[..d].iter().map(|w| ChildNumber::from(*w)).collect();
+			let k = parent.derive_priv(&secp, &mut h, &cns).unwrap();
+			let via = keychain.derive_key(3, &ExtKeychain::derive_key_id(d as u8, ws[0], ws[1], ws[2], ws[3]), SwitchCommitmentType::None).unwrap();
+			cmp(out, "derive_priv-vs-ExtKeychain", format!("depth {} {:?}", d, &ws[..d]), k.secret_key == via);
+		}
+		// (c) child view keys derived one after another with ONE hasher; each recovers exactly its own outputs
+		let mut hv = fresh();
+		let _ = ExtendedPrivKey::new_master(&secp, &mut hv, &other_seed).unwrap();
+		let vk0 = ViewKey::create(&keychain, keychain.master.clone(), &mut hv, is_test).unwrap();
+		let vk0_fresh = ViewKey::create(&keychain, keychain.master.clone(), &mut fresh(), is_test).unwrap();
+		cmp(out, "viewkey-create-vs-fresh-hasher", "root".to_string(), vk0 == vk0_fresh);
+		let accts: Vec<u32> = vec![a, a + 1, a, a + 2];
+		let mut vks: Vec<(u32, ViewKey)> = vec![];
+		for (k, w) in accts.iter().enumerate() {
+			let cn = ChildNumber::from(*w);
+			let child = vk0.ckd_pub(&secp, &mut hv, cn).unwrap();
+			let child_fresh = vk0_fresh.ckd_pub(&secp, &mut fresh(), cn).unwrap();
+			cmp(out, "viewkey-ckd_pub-vs-fresh-hasher", format!("#{} m/{}", k, w), child == child_fresh);
+			// and against the view key made from the privately derived child
+			let mut hp = fresh();
+			let ext = keychain.master.ckd_priv(&secp, &mut hp, cn).unwrap();
+			let from_priv = ViewKey::create(&keychain, ext, &mut hp, is_test).unwrap();
+			cmp(out, "viewkey-ckd_pub-vs-create-from-private-child", format!("#{} m/{}", k, w), child == from_priv);
+			// a grandchild with the same hasher object
+			let g = child.ckd_pub(&secp, &mut hv, ChildNumber::from(3)).unwrap();
+			let g_fresh = child_fresh.ckd_pub(&secp, &mut fresh(), ChildNumber::from(3)).unwrap();
+			cmp(out, "viewkey-grandchild-vs-fresh-hasher", format!("#{} m/{}/3", k, w), g == g_fresh);
+			vks.push((*w, child));
+		}
+		// outputs under each account; every child view key against every output
+		let nb = ProofBuilder::new(&keychain);
+		let mut outs_made: Vec<(u32, Identifier, u64, Commitment, grin_util::secp::pedersen::RangeProof)> = vec![];
+		for w in [a, a + 1, a + 2].iter() {
+			let id = ExtKeychain::derive_key_id(3, *w, rng.below(9) as u32, rng.below(9) as u32, rng.next() as u32);
+			let amount = 1 + rng.below(1 << 40);
+			let c = keychain.commit(amount, &id, SwitchCommitmentType::None).unwrap();
+			let p = proof::create(&keychain, &nb, amount, &id, SwitchCommitmentType::None, c, None).unwrap();
+			proofs += 1;
+			outs_made.push((*w, id, amount, c, p));
+		}
+		for (vw, vk) in &vks {
+			for (ow, id, amount, c, p) in &outs_made {
+				let r = rewind_str(catch(AssertUnwindSafe(|| proof::rewind(&secp, vk, *c, None, *p))));
+				let idh = hex(&id.to_bytes());
+				out.line(&format!("keys vkrewind [{}] {} none {}", vw, idh, amount), &r);
+				bump!(format!("child view key on {} account:{}", if vw == ow { "its own" } else { "another" }, r.split(' ').next().unwrap()));
+				let want = if vw == ow { format!("some {} none {}", idh, amount) } else { "none".to_string() };
+				if r != want {
+					out.raw(&format!(
+						"#ORACLE-FAIL C20 a child view key derived with a reused hasher does not recover exactly its own outputs: view key m/{} output m/{}/.. id={} amount={} => {} (expected {})",
+						vw, ow, idh, amount, r, want
+					));
+				}
+			}
+		}
+	}
+	out.raw(&format!("#STAT hasher seeds={} comparisons={} same={} bulletproofs created={}", n_seeds, n_cmp, n_same, proofs));
+	out.raw(&format!("#STAT hasher distribution={:?}", stat));
+}
+
 /// diagnostic (not part of the check): which single-bit flips of a bulletproof still verify
 fn malleable(out: &mut Out, rng: &mut Rng) {
 	let secp_v = Secp256k1::with_caps(secp::ContextFlag::Commit);
@@ -2195,6 +2341,7 @@ fn main() {
 		"viewkey" => viewkey(&mut out, &mut rng, thorough),
 		"history" => history(&mut out, &mut rng, thorough),
 		"seeds" => seeds(&mut out, &mut rng, thorough),
+		"hasher" => hasher(&mut out, &mut rng, thorough),
 		"malleable" => malleable(&mut out, &mut rng),
 		_ => {
 			eprintln!("unknown mode {}", mode);
